@@ -155,8 +155,13 @@ int kind_index(char k) {
     }
 }
 
-long futex(std::atomic<int>* addr, int op, int val) {
-    return syscall(SYS_futex, reinterpret_cast<int*>(addr), op, val, nullptr, nullptr, 0);
+using syscall_fn = long (*)(long, ...);
+syscall_fn real_syscall() {
+    static syscall_fn f = reinterpret_cast<syscall_fn>(dlsym(RTLD_NEXT, "syscall"));
+    return f;
+}
+long futex(std::atomic<int>* addr, int op, int val) {  // the simulator's own baton: always the real system call
+    return real_syscall()(SYS_futex, reinterpret_cast<int*>(addr), op, val, nullptr, nullptr, 0);
 }
 void park_self(SimThread* t) {
     while (t->go.load(std::memory_order_acquire) == 0) futex(&t->go, FUTEX_WAIT_PRIVATE, 0);
@@ -213,6 +218,7 @@ const char* state_name(ThreadState s) {
         case T_BLK_COND: return "blk-cond";
         case T_BLK_JOIN: return "blk-join";
         case T_BLK_PRED: return "blk-pred";
+        case T_BLK_FUTEX: return "blk-futex";
         case T_SLEEPING: return "sleeping";
         case T_DONE: return "done";
     }
@@ -227,6 +233,7 @@ bool enabled(SimThread* t) {
             return it == G.mutexes.end() || it->second.owner == -1;
         }
         case T_BLK_COND: return false;
+        case T_BLK_FUTEX: return false;
         case T_BLK_JOIN: return G.threads[t->join_target]->state == T_DONE;
         case T_BLK_PRED: return (*t->pred)();
         case T_SLEEPING: return G.mono_ms >= t->wake_at;
@@ -248,6 +255,9 @@ void fire_timers() {
         if (t->state == T_BLK_COND && t->timed && G.mono_ms >= t->wake_at) {
             t->timed_out = true;
             wake_cond_waiter(t, 2);
+        } else if (t->state == T_BLK_FUTEX && t->timed && G.mono_ms >= t->wake_at) {
+            t->timed_out = true;
+            t->state = T_RUNNABLE;
         }
 }
 
@@ -280,7 +290,7 @@ void schedule(SimThread* me) {
     if (G.cfg.spurious_rate > 0) {
         std::vector<SimThread*> cw;
         for (auto* t : G.threads)
-            if (t->state == T_BLK_COND) cw.push_back(t);
+            if (t->state == T_BLK_COND || t->state == T_BLK_FUTEX) cw.push_back(t);
         if (!cw.empty()) {
             int32_t v = -1;
             if (G.cfg.replay) {
@@ -297,7 +307,8 @@ void schedule(SimThread* me) {
             record('P', v);
             if (v >= 0) {
                 st.spurious++;
-                wake_cond_waiter(G.threads[v], 1);
+                if (G.threads[v]->state == T_BLK_FUTEX) G.threads[v]->state = T_RUNNABLE;  // FUTEX_WAIT may return spuriously
+                else wake_cond_waiter(G.threads[v], 1);
             }
         }
     }
@@ -325,7 +336,7 @@ void schedule(SimThread* me) {
         // advance the clock to the earliest timer, if any
         int64_t best = -1;
         for (auto* t : G.threads)
-            if (t->state == T_SLEEPING || (t->state == T_BLK_COND && t->timed))
+            if (t->state == T_SLEEPING || ((t->state == T_BLK_COND || t->state == T_BLK_FUTEX) && t->timed))
                 if (best < 0 || t->wake_at < best) best = t->wake_at;
         if (best >= 0) {
             if (best > G.mono_ms) G.mono_ms = best;
@@ -1045,6 +1056,60 @@ int sched_yield(void) {
     Ign ig;
     pre_op(me);
     return 0;
+}
+
+// ---- futex(2) through libc's syscall(): std::atomic::wait/notify, std::latch/barrier/semaphore, call_once, static-init guards
+long syscall(long number, ...) {
+    va_list ap;
+    va_start(ap, number);
+    long a[6];
+    for (auto& x : a) x = va_arg(ap, long);
+    va_end(ap);
+    SimThread* me = tl_me;
+    if (number != SYS_futex || !me || G.dying) return real_syscall()(number, a[0], a[1], a[2], a[3], a[4], a[5]);
+    int* addr = reinterpret_cast<int*>(a[0]);
+    int op = (int)a[1] & ~(FUTEX_PRIVATE_FLAG | FUTEX_CLOCK_REALTIME);
+    int val = (int)a[2];
+    Ign ig;
+    if (op == FUTEX_WAIT || op == FUTEX_WAIT_BITSET) {
+        pre_op(me);
+        if (*reinterpret_cast<volatile int*>(addr) != val) {
+            errno = EAGAIN;
+            return -1;
+        }
+        const struct timespec* ts = reinterpret_cast<const struct timespec*>(a[3]);
+        me->timed = ts != nullptr;
+        me->timed_out = false;
+        if (ts) {
+            int64_t ms = ts_ms(ts);
+            if (op == FUTEX_WAIT) me->wake_at = G.mono_ms + ms;  // relative
+            else me->wake_at = ((int)a[1] & FUTEX_CLOCK_REALTIME) ? ms - WALL_BASE_MS - G.wall_off_ms : ms - MONO_BASE_MS;
+        }
+        me->state = T_BLK_FUTEX;
+        me->obj = addr;
+        add_event(me->id, EV_FUTEX_WAIT, me->tag, 0);
+        schedule(me);
+        me->state = T_RUNNABLE;
+        me->timed = false;
+        if (me->timed_out) {
+            errno = ETIMEDOUT;
+            return -1;
+        }
+        return 0;
+    }
+    if (op == FUTEX_WAKE || op == FUTEX_WAKE_BITSET) {
+        pre_op(me);
+        int n = 0;
+        for (auto* t : G.threads)
+            if (n < val && t->state == T_BLK_FUTEX && t->obj == addr) {
+                t->state = T_RUNNABLE;
+                n++;
+            }
+        add_event(me->id, EV_FUTEX_WAKE, n, 0);
+        post_op(me);
+        return n;
+    }
+    return real_syscall()(number, a[0], a[1], a[2], a[3], a[4], a[5]);
 }
 
 // ---- clocks
